@@ -147,96 +147,12 @@ def build(case):
     return p
 
 
-# ----------------------------------------------------------------------------- exact optimum
-
-def solve_lin(M, r):
-    """Gaussian elimination over Fractions; None if singular"""
-    n = len(M)
-    M = [row[:] + [r[i]] for i, row in enumerate(M)]
-    for col in range(n):
-        piv = next((i for i in range(col, n) if M[i][col] != 0), None)
-        if piv is None:
-            return None
-        M[col], M[piv] = M[piv], M[col]
-        pv = M[col][col]
-        M[col] = [v / pv for v in M[col]]
-        for i in range(n):
-            if i != col and M[i][col] != 0:
-                f = M[i][col]
-                M[i] = [a - f * b for a, b in zip(M[i], M[col])]
-    return [M[i][n] for i in range(n)]
+from kkt import exact_optimum_cert  # noqa: E402  (props/C21/kkt.py, shared with check.py)
 
 
 def exact_optimum(case):
-    """the unique minimiser of the strictly convex QP over the polyhedron, by enumeration of active
-    sets and exact solution of the KKT system; None when infeasible"""
-    n = case['n']
-    H = [[F(v) for v in row] for row in case['H']]
-    b = [F(v) for v in case['b']]
-    rows = []   # (a, lo, hi, eq)
-    for c in case['cons']:
-        m = con_size(c)
-        R = con_rows(c)
-        lo, hi, eq = bnd(c['lower'], m), bnd(c['upper'], m), bnd(c['equals'], m)
-        for j in range(m):
-            if eq is not None:
-                rows.append((R[j], None, None, eq[j]))
-            else:
-                l = lo[j] if lo is not None and lo[j] > -INF else None
-                h = hi[j] if hi is not None and hi[j] < INF else None
-                rows.append((R[j], l, h, None))
-    dv = case['dv']
-    dlo, dhi = bnd(dv['lower'], n), bnd(dv['upper'], n)
-    for i in range(n):
-        e = [F(1) if k == i else F(0) for k in range(n)]
-        l = dlo[i] if dlo is not None and dlo[i] > -INF else None
-        h = dhi[i] if dhi is not None and dhi[i] < INF else None
-        if l is not None or h is not None:
-            rows.append((e, l, h, None))
-    choices = []
-    for (a, l, h, e) in rows:
-        if e is not None:
-            choices.append([('eq', e)])
-        else:
-            ch = [('free', None)]
-            if l is not None:
-                ch.append(('lo', l))
-            if h is not None:
-                ch.append(('hi', h))
-            choices.append(ch)
-    for combo in itertools.product(*choices):
-        act = [(rows[i][0], kind, val) for i, (kind, val) in enumerate(combo) if kind != 'free']
-        k = len(act)
-        if k > n:
-            continue
-        # [H  A'] [x  ]   [b]
-        # [A  0 ] [lam] = [v]        gradient H x - b + A' lam = 0
-        M = [H[i] + [act[j][0][i] for j in range(k)] for i in range(n)]
-        M += [act[j][0] + [F(0)] * k for j in range(k)]
-        r = b + [act[j][2] for j in range(k)]
-        sol = solve_lin(M, r)
-        if sol is None:
-            continue
-        x, lam = sol[:n], sol[n:]
-        good = True
-        for j in range(k):     # multiplier signs: at a lower bound lam <= 0, at an upper bound lam >= 0
-            if act[j][1] == 'lo' and lam[j] > 0:
-                good = False
-            if act[j][1] == 'hi' and lam[j] < 0:
-                good = False
-        if not good:
-            continue
-        for (a, l, h, e) in rows:
-            v = sum(ai * xi for ai, xi in zip(a, x))
-            if e is not None and v != e:
-                good = False
-            if l is not None and v < l:
-                good = False
-            if h is not None and v > h:
-                good = False
-        if good:
-            return x
-    return None
+    cert = exact_optimum_cert(case)
+    return None if cert is None else cert['x']
 
 
 def has_negative_scaler(case):
@@ -472,6 +388,9 @@ def handle(case):
                 break
     # (3) the design is the exact optimum
     xstar = exact_optimum(case)
+    if 'cert' in case and case['cert'] is not None and xstar is not None:
+        # the optimum whose KKT certificate the Coq checker verifies (check.py) is the one used here
+        assert [fr(e) for e in case['cert']['x']] == list(xstar), 'optimum differs from the certified one'
     if xstar is None:
         problems.append(('C21:success-on-infeasible-problem', 'success reported but the problem has no feasible point'))
     else:
